@@ -84,19 +84,22 @@ def exhaustive_nonpositive(ivals=(0, -1)):
     return out
 
 
-def evaluate(script, tr):
+def evaluate(script, tr, census=True):
     key = {"stage": STAGE}
     vs = []
     sent, got = [], []
     cancelled = closed_in = False
     ival = int(tr.cfg["ival"])
     t, both_at = 0, None      # virtual time; time at which "cancelled and input closed" became true
+    dl = int(tr.cfg.get("dl", 0))    # context deadline: the runtime cancels the context at that virtual time
     for mv, res, _ in tr.steps:
         c = mv[0]
         if cancelled and closed_in and both_at is None:
             both_at = t
         if c == "t" and res == "ok":
             t += int(mv[1:])
+            if dl and t >= dl:
+                cancelled = True
         elif c == "s" and res == "ok":
             sent.append(int(mv[1:]))
         elif c == "c" and res == "ok":
@@ -120,7 +123,7 @@ def evaluate(script, tr):
             elif res == "closed":
                 if not cancelled and got != sent:
                     vs.append(vlib.Violation("impl", "Throttling: `out` closed after %s of %s without cancellation" % (got, sent), case=script, key=key))
-        elif c == "z":
+        elif c == "z" and census:
             n = int(res)
             # The data goroutine and the close of `out` do not depend on time. The property sets no deadline for
             # the pacer; the code leaves its timer select through ctx.Done at once (the model and the theorem
